@@ -56,6 +56,9 @@ extern int sbdf_write_string(FILE* f, char const* s);
 /* reads a string from f */
 extern int sbdf_read_string(FILE* f, char** s);
 
+/* moves f n bytes forward; a stream that cannot seek is read instead */
+extern int sbdf_skip_bytes(FILE* f, long n);
+
 /* skips the next string in f */
 extern int sbdf_skip_string(FILE* f);
 
